@@ -785,7 +785,7 @@ class Extractor:
         if external:
             attrs.append('#[verifier::external_body]')
             # the body of an assumed function is not seen by Verus: pin its text, a changed body makes the assumption stale
-            btxt = re.sub(r'\s+', ' ', src[it.start:it.end]).strip()
+            btxt = ' '.join(t.text for t in it.toks)                                # tokens only: comments / layout do not matter
             bh = hashlib.sha256(btxt.encode()).hexdigest()
             exp = (self.cs.policy.external_sha or {}).get(path)
             self.report['external_body'].append({'fn': path, 'reason': pol.external[path], 'file': relfile, 'line': it.line,
@@ -1061,7 +1061,7 @@ class Extractor:
                         self.report['unanchored'].append({'what': '%s outline-expr "%s"' % (path, o.frm), 'src': o.src})
                         continue
                     a0, b1 = toks[hit].start, toks[hit + len(want) - 1].end
-                    region = re.sub(r'\s+', ' ', src[a0:b1]).strip()
+                    region = ' '.join(t.text for t in toks[hit:hit + len(want)])     # tokens only: comments / layout do not matter
                     h = hashlib.sha256(region.encode()).hexdigest()
                     ok = (h == o.sha)
                     self.report.setdefault('outlines', []).append({'fn': path, 'file': relfile, 'from': o.frm, 'to': '(expression)',
@@ -1075,7 +1075,7 @@ class Extractor:
                 if a is None or b is None or b[1] <= a[0]:
                     self.report['unanchored'].append({'what': '%s outline "%s"' % (path, o.frm), 'src': o.src})
                     continue
-                region = re.sub(r'\s+', ' ', src[a[0]:b[1]]).strip()
+                region = ' '.join(t.text for t in toks if a[0] <= t.start < b[1])   # tokens only: comments / layout do not matter
                 h = hashlib.sha256(region.encode()).hexdigest()
                 ok = (h == o.sha)
                 self.report.setdefault('outlines', []).append({'fn': path, 'file': relfile, 'from': o.frm, 'to': o.to,
